@@ -838,6 +838,28 @@ func (c *Ctx) genC19() {
 			w.login("alice", "pw-b", true, "", nil)
 			pwBudget -= 7
 		}
+		if h == 6 {
+			// the end of a session, to the second: the cookie of a session is good up to its stored expiry and not a moment
+			// longer — stepping over the boundary in small steps (1 s, 1 min, the clock tolerance of the SAML checks, 1 s)
+			w.putShortcut("sc1", entities[0], nil, false, false, nil)
+			first := w.login("alice", "pw-a", true, "", nil)
+			sid0 := ""
+			for sid, l := range w.sids {
+				if strings.HasSuffix(first, "/"+l) {
+					sid0 = sid
+				}
+			}
+			for _, dt := range []int64{3599, 1, 1, 59, 120, 1, 3600} {
+				w.now = w.now.Add(time.Duration(dt) * time.Second)
+				w.toks = append(w.toks, "advance", encInt(dt), "0")
+				w.impl = append(w.impl, "0/empty/-")
+				w.n++
+				w.sso(entities[0], true, "", "", false, sid0, "rs", nil)
+				w.shortcut("sc1", "", sid0, nil)
+				w.login("", "", false, sid0, nil)
+			}
+			pwBudget -= 1
+		}
 		if h == 1 {
 			// several services, a restart, then requests for each of them: every entity keeps its own metadata
 			w.putService("svc2", entities[1], true, false, nil)
